@@ -299,6 +299,104 @@ def real_get_ranges(h, n):
     return [(int(a), int(b)) for a, b in r]
 
 
+def unit_verdict(h, n, got):
+    """None when the statement holds for this get_ranges result, else (what, signature)."""
+    allowed, cls = allowed_ranges(h, n)
+    if isinstance(got, tuple):
+        return ('get_ranges(%r, %d) raised %s (a Range header is honoured, answered 416 or ignored, never an '
+                'exception)' % (h, n, got[1]), 'get_ranges:exception:' + got[1])
+    if got in allowed:
+        return None
+    if got is not None and any(not (0 <= a < b <= n) for a, b in got):
+        what, sig = 'a slice outside the entity or empty', 'get_ranges:slice_out_of_bounds'
+    elif cls == 'invalid':
+        what, sig = 'a syntactically invalid header is honoured', 'get_ranges:invalid_honoured'
+    elif got is None:
+        what, sig = 'a valid header is ignored', 'get_ranges:valid_ignored'
+    else:
+        what, sig = 'wrong slices', 'get_ranges:wrong_slices'
+    return ('get_ranges(%r, %d) = %s, statement allows %s: %s'
+            % (h, n, canon_ranges(got), ' or '.join(canon_ranges(a) for a in allowed), what), sig)
+
+
+def _may_shrink(ctx):
+    n = getattr(ctx, '_c16_shrinks', 0)
+    if n >= 6:
+        return False
+    try:
+        ctx._c16_shrinks = n + 1
+    except Exception:
+        return False
+    return True
+
+
+def shrink_unit(h, n, sig):
+    """Smaller (header, length) with the same failure signature."""
+    def fails(h2, n2):
+        v = unit_verdict(h2, n2, real_get_ranges(h2, n2))
+        return v is not None and v[1] == sig
+    for n2 in (0, 1, 2, 3, 5, 10, 14, 100):
+        if n2 < n and fails(h, n2):
+            n = n2
+            break
+    chars = common.shrink_list(list(h), lambda cs: fails(''.join(cs), n))
+    h = ''.join(chars)
+    # shorten digit runs
+    for _ in range(3):
+        m = re.search(r'[0-9]{2,}', h)
+        if not m:
+            break
+        cand = h[:m.start()] + m.group(0)[:-1] + h[m.end():]
+        if fails(cand, n):
+            h = cand
+        else:
+            break
+    return h, n
+
+
+def shrink_request(case, sig):
+    """Drop headers / simplify the request while the oracle still fails with `sig`."""
+    def fails(c):
+        try:
+            return any(s == sig for _, s in oracle_request(c, run_request(c)))
+        except Exception:
+            return False
+    cur = dict(case)
+    progress = True
+    while progress:
+        progress = False
+        cands = []
+        for k in ('range', 'im', 'inm', 'ims', 'ius'):
+            if cur.get(k) is not None:
+                c = dict(cur)
+                del c[k]
+                cands.append(c)
+        if cur.get('hetag') is not None:
+            cands.append(dict(cur, hetag=None))
+        if cur['etags']:
+            cands.append(dict(cur, etags=cur['etags'] - 1))
+        if cur['method'] != 'GET':
+            cands.append(dict(cur, method='GET'))
+        if cur['kind'] in ('tool', 'fobj'):
+            cands.append(dict(cur, kind='file'))
+        n = len(content_bytes(cur))
+        for n2 in (14, 3, 1):
+            if n2 < n:
+                c = {k: v for k, v in cur.items() if k not in ('hex', 'len', 'ca', 'cb')}
+                c.update(len=n2, ca=1, cb=0)
+                cands.append(c)
+        if cur.get('range'):
+            r = cur['range']
+            for i in range(len(r)):
+                cands.append(dict(cur, range=r[:i] + r[i + 1:]))
+        for c in cands:
+            if fails(c):
+                cur = c
+                progress = True
+                break
+    return cur
+
+
 def check_unit(ctx, cases, compare=True):
     """cases: list of (header, length)."""
     lines = ['R %d %s' % (n, enc_opt(h)) for h, n in cases]
@@ -312,20 +410,15 @@ def check_unit(ctx, cases, compare=True):
                                  'unsat' if not got else 'one' if len(got) == 1 else 'multi'))
         ctx.count('R:len:' + ('0' if n == 0 else '1-40' if n <= 40 else '41-65535' if n < 65536 else '65536+'))
         case = {'op': 'R', 'header': h, 'length': n}
-        if isinstance(got, tuple):
-            ctx.oracle_fail(case, 'get_ranges(%r, %d) raised %s (a Range header is honoured, answered 416 or '
-                            'ignored, never an exception)' % (h, n, got[1]), 'get_ranges:exception:' + got[1])
-        elif got not in allowed:
-            if got is not None and any(not (0 <= a < b <= n) for a, b in got):
-                what, sig = 'a slice outside the entity or empty', 'get_ranges:slice_out_of_bounds'
-            elif cls == 'invalid':
-                what, sig = 'a syntactically invalid header is honoured', 'get_ranges:invalid_honoured'
-            elif got is None:
-                what, sig = 'a valid header is ignored', 'get_ranges:valid_ignored'
-            else:
-                what, sig = 'wrong slices', 'get_ranges:wrong_slices'
-            ctx.oracle_fail(case, 'get_ranges(%r, %d) = %s, statement allows %s: %s'
-                            % (h, n, canon_ranges(got), ' or '.join(canon_ranges(a) for a in allowed), what), sig)
+        v = unit_verdict(h, n, got)
+        if v is not None:
+            what, sig = v
+            if ctx.match_known(sig) is None and _may_shrink(ctx):
+                h2, n2 = shrink_unit(h, n, sig)
+                if (h2, n2) != (h, n):
+                    case = {'op': 'R', 'header': h2, 'length': n2, '_shrunk_from': {'header': h, 'length': n}}
+                    what = unit_verdict(h2, n2, real_get_ranges(h2, n2))[0]
+            ctx.oracle_fail(case, what, sig)
         if model is not None:
             ctx.compared()
             if canon_ranges(got) != model[idx]:
@@ -847,8 +940,14 @@ def check_requests(ctx, cases, compare=True):
         if obs['headers'].get('content-type', '').startswith('multipart/byteranges'):
             ctx.count('Q:multipart')
         for what, sig in oracle_request(case, obs):
-            ctx.oracle_fail(case, '%s  [%s %s HTTP/%s etags=%d]' % (what, case['method'], case['kind'],
-                                                                    case['proto'], case['etags']), sig)
+            rep = case
+            if ctx.match_known(sig) is None and _may_shrink(ctx):
+                small = shrink_request(case, sig)
+                if small != case:
+                    rep = dict(small, _shrunk_from=case)
+                    what = [w for w, s2 in oracle_request(small, run_request(small)) if s2 == sig][0]
+            ctx.oracle_fail(rep, '%s  [%s %s HTTP/%s etags=%d]' % (what, rep['method'], rep['kind'],
+                                                                   rep['proto'], rep['etags']), sig)
         if model is not None:
             ctx.compared()
             real, mod = canon_real(case, obs), canon_model(model[idx])
@@ -934,6 +1033,9 @@ class _SubCtx:
 
     def model(self, lines):
         return self.driver(lines) if self.driver.available() else None
+
+    def match_known(self, signature):
+        return None
 
     def case(self, case, nontrivial=True, key=None):
         self.cases.append((None, nontrivial, hashlib.sha1(str(key).encode('utf-8', 'replace')).hexdigest()[:20]))
